@@ -288,8 +288,11 @@ PLANS = {
     ),
     'C03': dict(
         specs=KERNEL_SPECS, contracts=KERNEL_CONTRACTS, targets=TERM_TARGETS, level='proof',
-        custom=['models.holpy.id_inj_frame'],
+        custom=['models.holpy.id_inj_frame'], bounded=['bounded.c03_hash.run'],
         assumptions=COMMON_ASSUMPTIONS + [
+            "the hash / order clauses (equal terms hash equally, also after in-place type instantiation or inference; "
+            "fast_compare is a total order agreeing with ==) are NOT under contract: bounded stand-in "
+            "bounded/c03_hash.py on generated terms",
             "tuple equality of Type.args uses Type.__eq__'s own contract as induction hypothesis",
             "denotation preservation in every model is A1 (the spec functions lift/inst_bound/abstract are "
             "the standard de Bruijn operations)",
